@@ -92,6 +92,7 @@ type Exec struct {
 	pcS          []*Term // the part of pc kept on the solver's assertion stack (multi-variable conjuncts)
 	pcSLen       []int
 	domTerms     map[domKey]*Term
+	violCount    map[string]int
 	enumCache    map[enumKey]uint8
 	ttCache      map[*Term][4]uint64
 	maxDepthAll  int
@@ -636,7 +637,14 @@ func (e *Exec) addViolation(fr *frame, kind, label, known string, model map[stri
 	for f := fr; f != nil && len(stack) < 12; f = f.caller {
 		stack = append(stack, f.fn.String())
 	}
-	if len(e.violations) < 200 {
+	// keep a bounded number of witnesses per (class, obligation): a flood of known-finding witnesses must never
+	// crowd out a violation outside the known classes
+	key := known + "\x00" + kind + "\x00" + label
+	if e.violCount == nil {
+		e.violCount = map[string]int{}
+	}
+	e.violCount[key]++
+	if e.violCount[key] <= 8 {
 		e.violations = append(e.violations, Violation{Kind: kind, Label: label, Known: known, Model: disp, Stack: stack, Path: e.stats.Paths, Decision: len(e.dec.prefix)})
 	}
 }
